@@ -496,6 +496,7 @@ size_t ZSTD_seekable_decompress(ZSTD_seekable* zs, void* dst, size_t len, unsign
     U32 targetFrame = ZSTD_seekable_offsetToFrameIndex(zs, offset);
     U32 noOutputProgressCount = 0;
     size_t srcBytesRead = 0;
+    int frameDone = 0;   /* the decoder reported the end of the frame the read stops in */
     do {
         /* check if we can continue from a previous decompress job */
         if (targetFrame != zs->curFrame || offset < zs->decompressedOffset) {
@@ -514,7 +515,12 @@ size_t ZSTD_seekable_decompress(ZSTD_seekable* zs, void* dst, size_t len, unsign
             }
         }
 
-        while (zs->decompressedOffset < offset + len) {
+        while (zs->decompressedOffset < offset + len
+           || (len > 0 && !frameDone
+               && zs->decompressedOffset == zs->seekTable.entries[targetFrame + 1].dOffset)) {
+            /* (second condition : the read stops exactly where the seek table ends the frame and the decoder
+             *  has not reached the end of the frame yet : let it, so that the checksums - the seek table's
+             *  and the frame's own, if any - are verified) */
             /* end of the current frame according to the seek table : the frame must not regenerate more than that,
              * otherwise its surplus would be returned in place of the next frame's data */
             unsigned long long const frameEnd = zs->seekTable.entries[targetFrame + 1].dOffset;
@@ -555,6 +561,7 @@ size_t ZSTD_seekable_decompress(ZSTD_seekable* zs, void* dst, size_t len, unsign
 
             if (toRead == 0) {
                 /* frame complete */
+                frameDone = 1;
 
                 /* verify checksum */
                 if (zs->seekTable.checksumFlag &&
@@ -571,6 +578,7 @@ size_t ZSTD_seekable_decompress(ZSTD_seekable* zs, void* dst, size_t len, unsign
                     if (targetFrame == zs->curFrame) return ERROR(corruption_detected);
                     /* in this case it will fail later with corruption_detected, since last block does not have checksum */
                     assert(targetFrame != zs->seekTable.tableLen);
+                    frameDone = 0;
                 }
                 break;
             }
